@@ -35,15 +35,15 @@ class Over(Exception):
     pass
 
 
-def make_curve(desc, scale):
+def make_curve(desc, scale, rot=0):
     if isinstance(desc, str):
-        return AB.make(desc, scale)
+        return AB.make(desc, scale, rot=rot)
     segs = []
     pen = None
     for n in desc:
-        s = AB.make(n, scale)
+        s = AB.make(n, scale, rot=rot)
         if pen is not None:
-            s = AB.make(n, scale, shift=pen - s.start)
+            s = AB.make(n, scale, shift=pen - s.start, rot=rot)
             # make the joint exact
             s.start = pen
             if isinstance(s, Arc):
@@ -68,8 +68,8 @@ def out_of_range(L):
     return [-L / 10, -math.nextafter(0.0, 1.0), L * (1 + 1e-9), 2 * L]
 
 
-def check_curve(desc, scale, acc, only_s=None):
-    curve = make_curve(desc, scale)
+def check_curve(desc, scale, acc, only_s=None, rot=0):
+    curve = make_curve(desc, scale, rot)
     kind = 'P' if isinstance(curve, Path) else type(curve).__name__[0]
     L = curve.length()
     segs = list(curve) if isinstance(curve, Path) else [curve]
@@ -97,7 +97,7 @@ def check_curve(desc, scale, acc, only_s=None):
         for s in (s_alphabet(curve, L) if only_s is None else only_s):
             if not 0 <= s <= L:
                 continue
-            case = {'curve': desc, 'scale': scale, 's': s}
+            case = {'curve': desc, 'scale': scale, 's': s, 'rot': rot}
             counter['n'] = 0
             where = 's=0' if s == 0 else 's=L' if s == L else 'interior'
             acc.case(case, cls='%s/%s' % (kind, where), nontrivial=0 < s < L)
@@ -146,7 +146,7 @@ def check_curve(desc, scale, acc, only_s=None):
         if only_s is None:
             for (s1, t1), (s2, t2) in zip(results, results[1:]):
                 if t2 < t1 - 1e-9:
-                    acc.violation('not_monotone', {'kind': kind}, {'curve': desc, 'scale': scale, 's': s1, 's2': s2},
+                    acc.violation('not_monotone', {'kind': kind}, {'curve': desc, 'scale': scale, 's': s1, 's2': s2, 'rot': rot},
                                   observed=[t1, t2])
             for s in out_of_range(L):
                 counter['n'] = 0
@@ -157,7 +157,7 @@ def check_curve(desc, scale, acc, only_s=None):
                     r = ('exc', 'LengthEvaluationBudgetExceeded')
                 if r != ('exc', 'ValueError'):
                     acc.violation('out_of_range_not_ValueError', {'kind': kind, 'side': 'below' if s < 0 else 'above'},
-                                  {'curve': desc, 'scale': scale, 's': s, 'oor': True}, observed=r, expected='ValueError')
+                                  {'curve': desc, 'scale': scale, 's': s, 'oor': True, 'rot': rot}, observed=r, expected='ValueError')
     finally:
         for c in classes:
             c.length = origs[c]
@@ -165,19 +165,19 @@ def check_curve(desc, scale, acc, only_s=None):
 
 def tier_params(tier, seed):
     if tier == 'quick':
-        return {'scales': [1e-3, 1.0, 1e3, 1e4, 1e6]}
-    return {'scales': [1e-3, 1e-2, 0.1, 1.0, 10.0, 1e2, 1e3, 1e4, 1e5, 1e6, 3.7e4, 2.0 ** 20]}
+        return {'scales': [1e-3, 0.1, 1.0, 1e2, 1e3, 1e4, 3.7e4, 1e5, 1e6], 'rots': [0, 37]}
+    return {'scales': [1e-3, 1e-2, 0.1, 1.0, 10.0, 1e2, 1e3, 1e4, 1e5, 1e6, 3.7e4, 2.0 ** 20, 7.7e5], 'rots': [0, 37, 90, 211]}
 
 
 def shards(tier, seed):
     tp = tier_params(tier, seed)
-    return [{'curve': d, 'scale': sc} for sc in tp['scales'] for d in SHAPES + [list(p) for p in PATHS]]
+    return [{'curve': d, 'scale': sc, 'rot': r} for sc in tp['scales'] for r in tp['rots'] for d in SHAPES + [list(p) for p in PATHS]]
 
 
 def run_shard(desc, tier, seed):
     acc = core.Acc()
     d = desc['curve']
-    check_curve(d if isinstance(d, str) else tuple(d), desc['scale'], acc)
+    check_curve(d if isinstance(d, str) else tuple(d), desc['scale'], acc, rot=desc.get('rot', 0))
     return acc
 
 
@@ -186,7 +186,7 @@ def expected_classes(tier):
 
 
 def space(tier, seed):
-    return {'shapes': SHAPES, 'paths': PATHS, 'scales': tier_params(tier, seed)['scales'],
+    return {'shapes': SHAPES, 'paths': PATHS, 'scales': tier_params(tier, seed)['scales'], 'rotations': tier_params(tier, seed)['rots'],
             's_alphabet': '0, L, L*2^-30, L/7, L/3, L/2, 0.9L, L(1-2^-52), L(1-1e-9), nextafter(0,1), 1e-9 L, path segment boundaries and their float neighbours; out of range: -L/10, -tiny, L(1+1e-9), 2L',
             'length_evaluation_budget': BUDGET}
 
@@ -196,8 +196,8 @@ def replay(case):
     d = case['curve']
     d = d if isinstance(d, str) else tuple(d)
     if case.get('oor') or 's2' in case:
-        check_curve(d, case['scale'], acc)
+        check_curve(d, case['scale'], acc, rot=case.get('rot', 0))
         acc.vlist = [v for v in acc.vlist if v['case'].get('s') == case['s']]
     else:
-        check_curve(d, case['scale'], acc, only_s=[case['s']])
+        check_curve(d, case['scale'], acc, only_s=[case['s']], rot=case.get('rot', 0))
     return acc.vlist
